@@ -83,3 +83,4 @@ META = dict(
     design_ref="DESIGN.md §4 C01",
     technique="CBMC bounded symbolic execution of real writer+reader pairs composed (round trip), SAT",
 )
+META["text"] += " Also decided: the tree-node-to-inode mapping of the serialiser per node kind, the front end's block splitting (blocks concatenated = bytes appended), the directory writer -> reader round trip, and tar2sqfs' entry handling (time stamp clamp, root attributes)."
